@@ -129,6 +129,69 @@ def _get_only_mach_data(data: List[DragDataPoint]) -> List[float]:
         # Within 30 ft of initial altitude use initial values to save compute
         if math.fabs(self._a0 - altitude) < 30:""",
      "last-lookup memo kept in two fields of the (shared) atmosphere object"),
+    # ---------------------------------------------------------------- C13
+    ("c13-hash-includes-display-unit", "C13", UN,
+     "        return hash(self._value)\n",
+     "        return hash((self._value, self._defined_units))\n",
+     "the defect repaired by the fix: commit, re-seeded"),
+    ("c13-convert-round-trips-magnitude", "C13", UN,
+     "        self._defined_units = units\n        return self\n",
+     "        self._value = self.to_raw(self.from_raw(self._value, units), units)\n"
+     "        self._defined_units = units\n        return self\n",
+     "in-place conversion recomputes the magnitude through the display unit (drifts by ulps over a history)"),
+    ("c13-eq-compares-display-values", "C13", UN,
+     "    def __eq__(self, other):\n        return float(self) == other\n",
+     "    def __eq__(self, other):\n        if isinstance(other, AbstractDimension):\n"
+     "            return self.unit_value == other.unit_value\n        return float(self) == other\n",
+     "equality between quantities compares displayed numbers"),
+    ("c13-lt-compares-display-values", "C13", UN,
+     "    def __lt__(self, other):\n        return float(self) < other\n",
+     "    def __lt__(self, other):\n        if isinstance(other, AbstractDimension) and other.units != self.units:\n"
+     "            return self.unit_value < other.unit_value\n        return float(self) < other\n",
+     "ordering between quantities in different display units compares displayed numbers"),
+    ("c13-foreign-unit-read-returns-number", "C13", UN,
+     "        if units not in self.__dict__.values():\n"
+     "            raise UnitConversionError(f'{self.__class__.__name__}: unit {units} is not supported')\n",
+     "        if units not in self.__dict__.values() and not (30 <= units < 50):\n"
+     "            raise UnitConversionError(f'{self.__class__.__name__}: unit {units} is not supported')\n",
+     "reading a quantity in an energy or pressure unit of another dimension returns 0 instead of raising"),
+    ("c13-wind-clamps-until-distance-in-place", "C13", CO,
+     "        self.until_distance = PreferredUnits.distance(until_distance or Distance.Foot(self.MAX_DISTANCE_FEET))\n",
+     "        self.until_distance = PreferredUnits.distance(until_distance or Distance.Foot(self.MAX_DISTANCE_FEET))\n"
+     "        if self.until_distance._value < 12.0:\n            self.until_distance._value = 12.0\n",
+     "a library call rewrites the magnitude of the caller's quantity (Wind clamps a short until-distance in place)"),
+    # ---------------------------------------------------------------- C14
+    ("c14-reuses-callers-data-points", "C14", DM,
+     """            DragDataPoint(point.Mach, point.CD) if isinstance(point, DragDataPoint)
+            else DragDataPoint(point['Mach'], point['CD'])""",
+     """            point if isinstance(point, DragDataPoint)
+            else DragDataPoint(point['Mach'], point['CD'])""",
+     "the defect repaired by the fix: commit, re-seeded (needs a table taken from another model)"),
+    ("c14-divides-callers-bc-in-place", "C14", [
+        (DM, "[x.BC / bc for x in bc_points])", "[_scale_bc(x, bc) for x in bc_points])"),
+        (DM, "def sectional_density(", "def _scale_bc(x, bc):\n    x.BC = x.BC / bc\n    return x.BC\n\n\ndef sectional_density("),
+     ], None, None,
+     "BC of the caller's points divided in place (only visible with weight and diameter, compounds on reuse)"),
+    ("c14-clamp-dropped", "C14", DM,
+     """        elif xi >= xp[-1]:
+            y.append(yp[-1])""",
+     """        elif xi >= xp[-1]:
+            y.append(yp[-1] + (yp[-1] - yp[-2]) / (xp[-1] - xp[-2]) * (xi - xp[-1]) if len(xp) > 1 else yp[-1])""",
+     "BC extrapolated linearly above the last point instead of clamped"),
+    ("c14-sort-dropped", "C14", DM,
+     "    bc_points.sort(key=lambda p: p.Mach)  # Make sure bc_points are sorted for linear interpolation\n",
+     "    pass\n",
+     "points no longer sorted: wrong interpolation for lists given out of order"),
+    ("c14-model-cache-by-point-list", "C14", [
+        (DM, "def DragModelMultiBC(", "_MBC_CACHE: dict = {}\n\n\ndef DragModelMultiBC("),
+        (DM, "    drag_table = make_data_points(drag_table)  # Convert from list of dicts to list of DragDataPoints\n",
+         "    _key = (id(bc_points), len(drag_table), bc)\n    if _key in _MBC_CACHE:\n        return _MBC_CACHE[_key]\n"
+         "    if len(_MBC_CACHE) > 64:\n        _MBC_CACHE.clear()\n"
+         "    drag_table = make_data_points(drag_table)  # Convert from list of dicts to list of DragDataPoints\n"),
+        (DM, "    return DragModel(bc, drag_table, weight, diameter, length)\n",
+         "    _MBC_CACHE[_key] = DragModel(bc, drag_table, weight, diameter, length)\n    return _MBC_CACHE[_key]\n"),
+     ], None, None,
+     "result cached by (point list identity, table length): a different table of the same length gets the old model"),
 ]
 
 
